@@ -60,11 +60,21 @@ def cases(tier, rng):
         if k < 0.25: out.append((hist(rules, [build(0, q), "(solve-all 0)"]), "never"))
         elif k < 0.7: out.append((hist(rules, [build(0, q), "(stop-after %d)" % rng.randrange(0, 30), "(solve-all 0)"]), "flip-solve-all"))
         else: out.append((hist(rules, [build(0, q), "(stop-after %d)" % rng.randrange(0, 30)] + ["(solve 0)"] * rng.choice([3, 6])), "flip-solve"))
+    # long searches (40-clause predicates, a chain 30 links deep, up to 60 answers) with the flag raised late: at read 40 ... 5000
+    from gen import C01
+    from lib.sx import integer as _i
+    big = C01.large_kb()
+    V = lambda n: var(0, n)
+    for q in ([atom("num"), V("$N")], [atom("reach"), _i(1), V("$To")], [atom("pair"), V("$A"), V("$B")], [atom("reach"), V("$From"), _i(31)]):
+        for n in ([40, 200, 1000, 5000] if tier == "quick" else [40, 41, 64, 65, 100, 200, 255, 256, 1000, 1023, 1024, 5000, 70000]):
+            out.append((hist(big, [build(0, q), "(stop-after %d)" % n, "(solve-all 0)"]), "flip-solve-all"))
+            out.append((hist(big, [build(0, q), "(stop-after %d)" % n] + ["(solve 0)"] * 45), "flip-solve"))
+        out.append((hist(big, [build(0, q), "(solve-all 0)"]), "never"))
     return out
 
 RULE = ("five fixed programs (conjunction of multi-answer calls, not, recursive graph / list predicates, print) with the stop "
         "flag raised at the n-th read for EVERY n below 40 (thorough: 120) and never, through solve_all and through repeated "
-        "solve; random programs with a random flip point. Oracle against the reference search of the query: solve_all's list "
+        "solve; random programs with a random flip point; long searches (40-clause predicates, a 30-link chain, up to 60 answers) with the flag raised at read 40 ... 5000. Oracle against the reference search of the query: solve_all's list "
         "without a trailing timeout message is exactly the reference answers; with the message, the texts before it are a "
         "prefix of the reference answers; without a pending flip there is never a message; each solve reports the next "
         "reference answer, `No more.` or the message, and after the message only the message or `No more.`... is not "
